@@ -2,15 +2,18 @@
 package mon
 
 import (
-	"sync"
 	"encoding/hex"
 	"fmt"
+	"hash/adler32"
+	"hash/crc32"
+	"hash/fnv"
 	"math/rand/v2"
 	"path"
 	"regexp"
 	"sort"
 	"strconv"
 	"strings"
+	"sync"
 	"unicode/utf8"
 
 	"verif/harness/core"
@@ -438,6 +441,9 @@ var (
 	twinTreeA         []byte // two contents of a file "f" such that the TREES {f} share 8 hex digits
 	twinTreeB         []byte
 	twinBlobs, twinTs bool
+	// pairs of file names with the same 32-bit checksum (CRC-32 IEEE and Castagnoli, FNV-1 and FNV-1a, Adler-32):
+	// whatever keys a table by a checksum of the path treats the two names as one
+	hashTwinNames []string
 )
 
 func idTwins() {
@@ -450,6 +456,24 @@ func idTwins() {
 				twinBlobA, twinBlobB, twinBlobs = []byte(fmt.Sprintf("note %d\n", m)), c, true
 			}
 			seen[p] = n
+		}
+		for _, hf := range []func([]byte) uint32{
+			crc32.ChecksumIEEE,
+			func(b []byte) uint32 { return crc32.Checksum(b, crc32.MakeTable(crc32.Castagnoli)) },
+			func(b []byte) uint32 { h := fnv.New32(); h.Write(b); return h.Sum32() },
+			func(b []byte) uint32 { h := fnv.New32a(); h.Write(b); return h.Sum32() },
+			adler32.Checksum,
+		} {
+			got := map[uint32]string{}
+			for n := 0; n < 2_000_000; n++ {
+				name := fmt.Sprintf("hc/n%x.txt", n*2654435761%4294967291)
+				k := hf([]byte(name))
+				if other, ok := got[k]; ok && other != name {
+					hashTwinNames = append(hashTwinNames, other, name)
+					break
+				}
+				got[k] = name
+			}
 		}
 		seen = map[string]int{}
 		treeOf := func(n int) string {
@@ -601,4 +625,34 @@ func firstN(xs []string, n int) []string {
 
 func newRand(seed int64, stream uint64) *rand.Rand {
 	return rand.New(rand.NewPCG(uint64(seed), stream*0x9e3779b97f4a7c15+1))
+}
+
+func setOf(xs []string) map[string]bool {
+	m := map[string]bool{}
+	for _, x := range xs {
+		m[x] = true
+	}
+	return m
+}
+
+// sameStringSet: the two lists hold the same set of strings (byte-exact).
+func sameStringSet(a, b []string) bool {
+	ma, mb := setOf(a), setOf(b)
+	if len(ma) != len(mb) {
+		return false
+	}
+	for x := range ma {
+		if !mb[x] {
+			return false
+		}
+	}
+	return true
+}
+
+// clipList: at most n elements, then a count of the rest.
+func clipList(xs []string, n int) []string {
+	if len(xs) <= n {
+		return xs
+	}
+	return append(append([]string{}, xs[:n]...), fmt.Sprintf("... and %d more", len(xs)-n))
 }
